@@ -1,5 +1,374 @@
+/- Helper lemmas for C06 (statement-level fault model, Model/Fault.lean). -/
 import AskarModel.Model.Fault
+import AskarModel.Lemmas.Store
 namespace Askar.Store
 namespace Lemmas
+
+/-! ### the tag-insert loop -/
+
+theorem insertTagsF_cases (f : Option FaultAt) (i : Nat) (acc ts : List Wql.Tag) :
+    insertTagsF f i acc ts = .ok (acc ++ ts) ∨ insertTagsF f i acc ts = .error .backend := by
+  induction ts generalizing i acc with
+  | nil => left; simp [insertTagsF]
+  | cons t ts ih =>
+    simp only [insertTagsF]
+    split
+    · right; rfl
+    · rcases ih (i + 1) (acc ++ [t]) with h | h
+      · left; rw [h]; simp
+      · right; exact h
+
+theorem insertTagsF_no_tag (f : Option FaultAt) (hf : ∀ k, f ≠ some (.tag k)) (i : Nat) (acc ts : List Wql.Tag) :
+    insertTagsF f i acc ts = .ok (acc ++ ts) := by
+  induction ts generalizing i acc with
+  | nil => simp [insertTagsF]
+  | cons t ts ih =>
+    simp only [insertTagsF, hf i, if_false]
+    rw [ih]; simp
+
+theorem insertTagsF_none (i : Nat) (acc ts : List Wql.Tag) :
+    insertTagsF none i acc ts = .ok (acc ++ ts) :=
+  insertTagsF_no_tag none (fun _ h => by cases h) i acc ts
+
+/-- the fault point lies beyond the last tag statement: never reached -/
+theorem insertTagsF_tag_le (k i : Nat) (acc ts : List Wql.Tag) (h : i + ts.length ≤ k) :
+    insertTagsF (some (.tag k)) i acc ts = .ok (acc ++ ts) := by
+  induction ts generalizing i acc with
+  | nil => simp [insertTagsF]
+  | cons t ts ih =>
+    simp only [List.length_cons] at h
+    have hne : ¬ (some (FaultAt.tag k) = some (FaultAt.tag i)) := by
+      intro he; injection he with he; injection he with he; omega
+    simp only [insertTagsF, hne, if_false]
+    rw [ih (i + 1) (acc ++ [t]) (by omega)]; simp
+
+/-- the fault point is one of the remaining tag statements: reached -/
+theorem insertTagsF_tag_gt (k i : Nat) (acc ts : List Wql.Tag) (h1 : i ≤ k) (h2 : k < i + ts.length) :
+    insertTagsF (some (.tag k)) i acc ts = .error .backend := by
+  induction ts generalizing i acc with
+  | nil => simp at h2; omega
+  | cons t ts ih =>
+    simp only [List.length_cons] at h2
+    simp only [insertTagsF]
+    by_cases hik : k = i
+    · subst hik; simp
+    · have hne : ¬ (some (FaultAt.tag k) = some (FaultAt.tag i)) := by
+        intro he; injection he with he; injection he with he; exact hik he
+      simp only [hne, if_false]
+      exact ih (i + 1) (acc ++ [t]) (by omega) (by omega)
+
+/-! ### `find?` against `any` -/
+
+theorem any_of_find?_some {α} {p : α → Bool} {l : List α} {x : α} (h : l.find? p = some x) : l.any p = true := by
+  rw [List.any_eq_true]; exact ⟨x, List.mem_of_find?_eq_some h, List.find?_some h⟩
+
+theorem any_of_find?_none {α} {p : α → Bool} {l : List α} (h : l.find? p = none) : l.any p = false := by
+  rw [List.any_eq_false]; intro x hx; exact List.find?_eq_none.1 h x hx
+
+/-! ### each mutating call: complete effect, or an error -/
+
+/-- the expiry computation shared by `perform_insert` in both modes -/
+def expOf (now : Int) : Option Int → Except Err (Option Int)
+  | none => .ok none
+  | some ms => (expiryTimestamp now ms).map some
+
+/-- `insertF` after the expiry computation -/
+def insertCoreF (f : Option FaultAt) (db : Db) (s : Sess) (k : Kind) (c n : String) (v : Bytes)
+    (t : Option (List Wql.Tag)) (exp : Option Int) : Except Err Db :=
+  if f = some .item then .error .backend
+  else if db.items.any (·.sameIdent s.pid s.key k c n) then .error .duplicate
+  else
+    match insertTagsF f 0 [] (t.getD []) with
+    | .error e => .error e
+    | .ok ts =>
+      .ok { db with items := db.items ++ [{ id := nextId (db.items.map (·.id)), pid := s.pid, key := s.key, kind := k,
+                                            cat := c, name := n, value := v, tags := ts, expiry := exp }] }
+
+/-- `doInsert` after the expiry computation -/
+def insertCore (db : Db) (s : Sess) (k : Kind) (c n : String) (v : Bytes)
+    (t : Option (List Wql.Tag)) (exp : Option Int) : Except Err Db :=
+  if db.items.any (·.sameIdent s.pid s.key k c n) then .error .duplicate
+  else
+    .ok { db with items := db.items ++ [{ id := nextId (db.items.map (·.id)), pid := s.pid, key := s.key, kind := k,
+                                          cat := c, name := n, value := v, tags := t.getD [], expiry := exp }] }
+
+theorem insertF_eq (f : Option FaultAt) (db : Db) (now : Int) (s : Sess) (k : Kind) (c n : String) (v : Bytes)
+    (t : Option (List Wql.Tag)) (e : Option Int) :
+    insertF f db now s k c n v t e =
+      match expOf now e with
+      | .error er => .error er
+      | .ok exp => insertCoreF f db s k c n v t exp := by
+  cases e with
+  | none => rfl
+  | some ms => simp only [insertF, expOf]; cases expiryTimestamp now ms <;> rfl
+
+theorem doInsert_eq (db : Db) (now : Int) (s : Sess) (k : Kind) (c n : String) (v : Bytes)
+    (t : Option (List Wql.Tag)) (e : Option Int) :
+    doInsert db now s k c n v t e =
+      match expOf now e with
+      | .error er => .error er
+      | .ok exp => insertCore db s k c n v t exp := by
+  cases e with
+  | none => rfl
+  | some ms => simp only [doInsert, expOf]; cases expiryTimestamp now ms <;> rfl
+
+theorem insertCoreF_cases (f : Option FaultAt) (db : Db) (s : Sess) (k : Kind) (c n : String) (v : Bytes)
+    (t : Option (List Wql.Tag)) (exp : Option Int) :
+    insertCoreF f db s k c n v t exp = insertCore db s k c n v t exp ∨
+      ∃ er, insertCoreF f db s k c n v t exp = .error er := by
+  unfold insertCoreF insertCore
+  by_cases hf : f = some .item
+  · right; exact ⟨.backend, by simp only [hf, if_true]⟩
+  · simp only [hf, if_false]
+    split
+    · left; rfl
+    · rcases insertTagsF_cases f 0 [] (t.getD []) with h | h
+      · left; rw [h]; simp
+      · right; rw [h]; exact ⟨_, rfl⟩
+
+theorem insertCoreF_none (db : Db) (s : Sess) (k : Kind) (c n : String) (v : Bytes)
+    (t : Option (List Wql.Tag)) (exp : Option Int) :
+    insertCoreF none db s k c n v t exp = insertCore db s k c n v t exp := by
+  unfold insertCoreF insertCore
+  have hf : ¬ ((none : Option FaultAt) = some .item) := by intro h; cases h
+  simp only [hf, if_false]
+  split
+  · rfl
+  · rw [insertTagsF_none]; simp
+
+theorem insertF_cases (f : Option FaultAt) (db : Db) (now : Int) (s : Sess) (k : Kind) (c n : String) (v : Bytes)
+    (t : Option (List Wql.Tag)) (e : Option Int) :
+    insertF f db now s k c n v t e = doInsert db now s k c n v t e ∨
+      ∃ er, insertF f db now s k c n v t e = .error er := by
+  rw [insertF_eq, doInsert_eq]
+  cases expOf now e with
+  | error er => left; rfl
+  | ok exp => exact insertCoreF_cases f db s k c n v t exp
+
+theorem insertF_none (db : Db) (now : Int) (s : Sess) (k : Kind) (c n : String) (v : Bytes)
+    (t : Option (List Wql.Tag)) (e : Option Int) :
+    insertF none db now s k c n v t e = doInsert db now s k c n v t e := by
+  rw [insertF_eq, doInsert_eq]
+  cases expOf now e with
+  | error er => rfl
+  | ok exp => exact insertCoreF_none db s k c n v t exp
+
+/-- `replaceF` after the expiry computation -/
+def replaceCoreF (f : Option FaultAt) (db : Db) (s : Sess) (k : Kind) (c n : String) (v : Bytes)
+    (t : Option (List Wql.Tag)) (exp : Option Int) : Except Err Db :=
+  match db.items.find? (·.sameIdent s.pid s.key k c n) with
+  | none => .error .notFound
+  | some old =>
+    if f = some .itemupd then .error .notFound
+    else if f = some .tagdel && !old.tags.isEmpty then .error .backend
+    else
+      match insertTagsF f 0 [] (t.getD []) with
+      | .error e => .error e
+      | .ok ts =>
+        .ok { db with items := db.items.map fun it =>
+                if it.sameIdent s.pid s.key k c n then { it with value := v, tags := ts, expiry := exp } else it }
+
+/-- `doReplace` after the expiry computation -/
+def replaceCore (db : Db) (s : Sess) (k : Kind) (c n : String) (v : Bytes)
+    (t : Option (List Wql.Tag)) (exp : Option Int) : Except Err Db :=
+  if db.items.any (·.sameIdent s.pid s.key k c n) then
+    .ok { db with items := db.items.map fun it =>
+            if it.sameIdent s.pid s.key k c n then { it with value := v, tags := t.getD [], expiry := exp } else it }
+  else .error .notFound
+
+theorem replaceF_eq (f : Option FaultAt) (db : Db) (now : Int) (s : Sess) (k : Kind) (c n : String) (v : Bytes)
+    (t : Option (List Wql.Tag)) (e : Option Int) :
+    replaceF f db now s k c n v t e =
+      match expOf now e with
+      | .error er => .error er
+      | .ok exp => replaceCoreF f db s k c n v t exp := by
+  cases e with
+  | none => rfl
+  | some ms => simp only [replaceF, expOf]; cases expiryTimestamp now ms <;> rfl
+
+theorem doReplace_eq (db : Db) (now : Int) (s : Sess) (k : Kind) (c n : String) (v : Bytes)
+    (t : Option (List Wql.Tag)) (e : Option Int) :
+    doReplace db now s k c n v t e =
+      match expOf now e with
+      | .error er => .error er
+      | .ok exp => replaceCore db s k c n v t exp := by
+  cases e with
+  | none => rfl
+  | some ms => simp only [doReplace, expOf]; cases expiryTimestamp now ms <;> rfl
+
+theorem replaceCoreF_cases (f : Option FaultAt) (db : Db) (s : Sess) (k : Kind) (c n : String) (v : Bytes)
+    (t : Option (List Wql.Tag)) (exp : Option Int) :
+    replaceCoreF f db s k c n v t exp = replaceCore db s k c n v t exp ∨
+      ∃ er, replaceCoreF f db s k c n v t exp = .error er := by
+  unfold replaceCoreF replaceCore
+  split
+  · rename_i hfind
+    left; rw [any_of_find?_none hfind]; simp
+  · rename_i old hfind
+    split
+    · right; exact ⟨_, rfl⟩
+    · split
+      · right; exact ⟨_, rfl⟩
+      · rcases insertTagsF_cases f 0 [] (t.getD []) with h | h
+        · left; rw [h, any_of_find?_some hfind]; simp
+        · right; rw [h]; exact ⟨_, rfl⟩
+
+theorem replaceCoreF_none (db : Db) (s : Sess) (k : Kind) (c n : String) (v : Bytes)
+    (t : Option (List Wql.Tag)) (exp : Option Int) :
+    replaceCoreF none db s k c n v t exp = replaceCore db s k c n v t exp := by
+  unfold replaceCoreF replaceCore
+  split
+  · rename_i hfind
+    rw [any_of_find?_none hfind]; simp
+  · rename_i old hfind
+    rw [insertTagsF_none, any_of_find?_some hfind]; simp
+
+theorem replaceF_cases (f : Option FaultAt) (db : Db) (now : Int) (s : Sess) (k : Kind) (c n : String) (v : Bytes)
+    (t : Option (List Wql.Tag)) (e : Option Int) :
+    replaceF f db now s k c n v t e = doReplace db now s k c n v t e ∨
+      ∃ er, replaceF f db now s k c n v t e = .error er := by
+  rw [replaceF_eq, doReplace_eq]
+  cases expOf now e with
+  | error er => left; rfl
+  | ok exp => exact replaceCoreF_cases f db s k c n v t exp
+
+theorem replaceF_none (db : Db) (now : Int) (s : Sess) (k : Kind) (c n : String) (v : Bytes)
+    (t : Option (List Wql.Tag)) (e : Option Int) :
+    replaceF none db now s k c n v t e = doReplace db now s k c n v t e := by
+  rw [replaceF_eq, doReplace_eq]
+  cases expOf now e with
+  | error er => rfl
+  | ok exp => exact replaceCoreF_none db s k c n v t exp
+
+theorem removeF_cases (f : Option FaultAt) (db : Db) (s : Sess) (k : Kind) (c n : String) :
+    removeF f db s k c n = doRemove db s k c n ∨ ∃ er, removeF f db s k c n = .error er := by
+  unfold removeF doRemove
+  split
+  · rename_i hfind
+    left; rw [any_of_find?_none hfind]; simp
+  · rename_i old hfind
+    split
+    · right; exact ⟨_, rfl⟩
+    · left; rw [any_of_find?_some hfind]; simp
+
+theorem removeF_none (db : Db) (s : Sess) (k : Kind) (c n : String) :
+    removeF none db s k c n = doRemove db s k c n := by
+  unfold removeF doRemove
+  split
+  · rename_i hfind
+    rw [any_of_find?_none hfind]; simp
+  · rename_i old hfind
+    rw [any_of_find?_some hfind]; simp
+
+theorem removeAllF_cases (like : Bytes → Bytes → Bool) (f : Option FaultAt) (db : Db) (s : Sess) (k : Option Kind)
+    (c : Option String) (q : Option (Wql.Query String)) :
+    removeAllF like f db s k c q = .ok (doRemoveAll like db s k c q) ∨
+      ∃ er, removeAllF like f db s k c q = .error er := by
+  unfold removeAllF doRemoveAll
+  simp only []
+  split
+  · right; exact ⟨_, rfl⟩
+  · left; rfl
+
+theorem removeAllF_none (like : Bytes → Bytes → Bool) (db : Db) (s : Sess) (k : Option Kind)
+    (c : Option String) (q : Option (Wql.Query String)) :
+    removeAllF like none db s k c q = .ok (doRemoveAll like db s k c q) := by
+  unfold removeAllF doRemoveAll
+  simp
+
+/-! ### the property lemmas -/
+
+theorem no_fault_complete (like : Bytes → Bytes → Bool) (page : Nat) (now : Int) (s : Sess) (db : Db) (op : Op) :
+    stepF like page now none s db op = step like page now s db op := by
+  cases op with
+  | insert k c n v t e => simp only [stepF, step, insertF_none] <;> rfl
+  | replace k c n v t e => simp only [stepF, step, replaceF_none] <;> rfl
+  | remove k c n => simp only [stepF, step, removeF_none] <;> rfl
+  | removeAll k c q => simp only [stepF, step, removeAllF_none] <;> rfl
+  | fetch => rfl
+  | fetchAll => rfl
+  | count => rfl
+  | scan => rfl
+
+theorem all_or_nothing (like : Bytes → Bytes → Bool) (page : Nat) (now : Int) (f : Option FaultAt) (s : Sess) (db : Db) (op : Op) :
+    stepF like page now f s db op = step like page now s db op ∨
+    ((stepF like page now f s db op).1 = db ∧ (stepF like page now f s db op).2.isErr = true) := by
+  cases op with
+  | insert k c n v t e =>
+    rcases insertF_cases f db now s k c n v t e with h | ⟨er, h⟩
+    · left; simp only [stepF, step, h] <;> rfl
+    · right; simp only [stepF, h, Out.isErr, and_self]
+  | replace k c n v t e =>
+    rcases replaceF_cases f db now s k c n v t e with h | ⟨er, h⟩
+    · left; simp only [stepF, step, h] <;> rfl
+    · right; simp only [stepF, h, Out.isErr, and_self]
+  | remove k c n =>
+    rcases removeF_cases f db s k c n with h | ⟨er, h⟩
+    · left; simp only [stepF, step, h] <;> rfl
+    · right; simp only [stepF, h, Out.isErr, and_self]
+  | removeAll k c q =>
+    rcases removeAllF_cases like f db s k c q with h | ⟨er, h⟩
+    · left; simp only [stepF, step, h] <;> rfl
+    · right; simp only [stepF, h, Out.isErr, and_self]
+  | fetch => left; rfl
+  | fetchAll => left; rfl
+  | count => left; rfl
+  | scan => left; rfl
+
+theorem step_read_db (like : Bytes → Bytes → Bool) (page : Nat) (now : Int) (s : Sess) (db : Db) (op : Op)
+    (h : (step like page now s db op).2.isErr = true) : (step like page now s db op).1 = db := by
+  cases op with
+  | insert k c n v t e => revert h; simp only [step]; split <;> simp [Out.isErr]
+  | replace k c n v t e => revert h; simp only [step]; split <;> simp [Out.isErr]
+  | remove k c n => revert h; simp only [step]; split <;> simp [Out.isErr]
+  | removeAll k c q => revert h; simp [step, Out.isErr]
+  | fetch => rfl
+  | fetchAll => simp only [step]; split <;> rfl
+  | count => rfl
+  | scan => simp only [step]; split <;> rfl
+
+theorem stmt_fault_atomic (like : Bytes → Bytes → Bool) (page : Nat) (now : Int) (f : Option FaultAt) (s : Sess) (db : Db) (op : Op)
+    (h : (stepF like page now f s db op).2.isErr = true) : (stepF like page now f s db op).1 = db := by
+  rcases all_or_nothing like page now f s db op with heq | ⟨h1, _⟩
+  · rw [heq] at h ⊢; exact step_read_db like page now s db op h
+  · exact h1
+
+theorem tag_fault_reached (like : Bytes → Bytes → Bool) (page : Nat) (now : Int) (s : Sess) (db : Db) (k : Nat) (kd : Kind) (c n : String) (v : Bytes)
+    (ts : List Wql.Tag) (hnd : (step like page now s db (.insert kd c n v (some ts) none)).2 = .ok) :
+    (k < ts.length → (stepF like page now (some (.tag k)) s db (.insert kd c n v (some ts) none)) = (db, .err .backend)) ∧
+    (ts.length ≤ k → stepF like page now (some (.tag k)) s db (.insert kd c n v (some ts) none) = step like page now s db (.insert kd c n v (some ts) none)) := by
+  have hdup : db.items.any (·.sameIdent s.pid s.key kd c n) = false := by
+    cases hd : db.items.any (·.sameIdent s.pid s.key kd c n) with
+    | false => rfl
+    | true => simp [step, doInsert, hd] at hnd
+  have hf : ¬ (some (FaultAt.tag k) = some FaultAt.item) := by intro h; cases h
+  constructor
+  · intro hk
+    simp [stepF, insertF, hdup, insertTagsF_tag_gt k 0 [] ts (Nat.zero_le k) (by omega)]
+  · intro hk
+    simp [stepF, step, insertF, doInsert, hdup, insertTagsF_tag_le k 0 [] ts (by omega)]
+
+theorem run_append (like : Bytes → Bytes → Bool) (page : Nat) (now : Int) (s : Sess) (db : Db) (a b : List Op) :
+    (run like page now s db (a ++ b)).1 = (run like page now s (run like page now s db a).1 b).1 := by
+  induction a generalizing db with
+  | nil => rfl
+  | cons op a ih => simp only [List.cons_append, run]; exact ih _
+
+theorem take_split {α} (l : List α) (m n : Nat) (h : m ≤ n) : l.take n = l.take m ++ (l.take n).drop m := by
+  have h1 : (l.take n).take m = l.take m := by
+    rw [List.take_take, Nat.min_eq_left h]
+  rw [← h1]; exact (List.take_append_drop m (l.take n)).symm
+
+theorem crash_keeps_acknowledged (like : Bytes → Bytes → Bool) (page : Nat) (now : Int) (s : Sess) (db : Db) (ops : List Op) (m n : Nat) (h : m ≤ n) :
+    crashAfter like page now s db ops n =
+      (run like page now s (crashAfter like page now s db ops m) ((ops.take n).drop m)).1 := by
+  unfold crashAfter
+  rw [← run_append, ← take_split ops m n h]
+
+theorem failed_call_skipped (like : Bytes → Bytes → Bool) (page : Nat) (now : Int) (f : Option FaultAt) (s : Sess) (db : Db) (op : Op) (rest : List Op)
+    (h : (stepF like page now f s db op).2.isErr = true) :
+    (run like page now s (stepF like page now f s db op).1 rest) = run like page now s db rest := by
+  rw [stmt_fault_atomic like page now f s db op h]
+
 end Lemmas
 end Askar.Store
